@@ -142,7 +142,7 @@ def run(res, f, tier):
     for u in user_unsafe:
         ob(False, "C12|unsafe|%s" % u["owner"], "unsafe block in %s at %s" % (u["owner"], u["span"]), u)
     for i in f.impls:
-        if i.get("unsafe"):
+        if i.get("unsafe") and not i.get("derived"):      # `derive(Clone, Copy)` emits `unsafe impl TrivialClone`
             ob(False, "C12|unsafe-impl|%s" % i["def"], "unsafe impl %s" % i.get("trait_ref"))
     for fn in f.raw["fns"]:
         if fn["unsafe"]:
